@@ -158,6 +158,16 @@ type Expect struct {
 	Must     []int        // canonical sites (number load directly followed by the trigger), in order
 }
 
+// NativeTrigger: the instruction is a documented syscall trigger of the listing's architecture (SYSCALL on x86_64,
+// INT $0x80 and SYSENTER on i386). A trigger of the other architecture may appear in a listing (hand-written assembly),
+// but a site is only required to be found for the native ones.
+func NativeTrigger(arch, instr string) bool {
+	if arch == "i386" {
+		return instr == "INT $0x80" || instr == "SYSENTER"
+	}
+	return instr == "SYSCALL"
+}
+
 // Expectations computes the expectation of every function.
 func Expectations(l *Listing, table map[int]string) []Expect {
 	var out []Expect
@@ -168,7 +178,7 @@ func Expectations(l *Listing, table map[int]string) []Expect {
 			switch it.Kind {
 			case RawSite:
 				e.Possible[it.Num] = true
-				if _, ok := table[it.Num]; ok && it.Gap == 0 && !wrapperFn {
+				if _, ok := table[it.Num]; ok && it.Gap == 0 && !wrapperFn && NativeTrigger(l.Arch, it.Instr) {
 					e.Must = append(e.Must, it.Num)
 				}
 			case WrapperSite:
